@@ -3,5 +3,5 @@ CONSTANTS
   ALLSETTINGS = TRUE
   WITHPROG = FALSE
 SPECIFICATION Spec
-INVARIANTS DesignC01 DesignC02 DesignC10 Emit
+INVARIANTS DesignC01 DesignC02 DesignC05 DesignC10 DesignC17 Emit
 CHECK_DEADLOCK TRUE
